@@ -794,8 +794,9 @@ def _run_case(ctx, L, B, case):
     k = case.get('kind')
     if k == 'stream':
         check_stream_case(ctx, L, B, unhx(case['wire']))
-    elif k == 'chunk' and case.get('body') is not None:
-        check_chunk_case(ctx, L, B, unhx(case['body']), case['n'])
+    elif k == 'chunk' and (case.get('body') is not None or case.get('fill')):
+        body = unhx(case['body']) if case.get('body') is not None else case['fill'].encode() * case['body_len']
+        check_chunk_case(ctx, L, B, body, case['n'], model=False)
     elif k == 'accept-encoding':
         check_header_case(ctx, L, B, case['header'], case['supported'])
         if case.get('via') == 'do_POST':
@@ -1141,14 +1142,14 @@ def registry_oracle(ctx, L):
         if not ok:
             ctx.fail('registry:coding-not-lossless', alg, case)
     w = read_window(L)
-    if w != 16:
+    if w != 16 and 3 <= w <= 8:
         # the writer can emit chunk-size lines the reader can no longer read
-        n = 16 ** max(w - 2, 0)
-        body = b'x' * min(n, 1 << 20)
-        if len(body) == n:
-            got = impl_dechunk(L, L.rd.mk_chunks(body, n))
-            if got != f'ok {hx(body)} 0':
-                ctx.fail('chunk-roundtrip:rejected', f'window {w}: chunk of {n} bytes is not read back', {'kind': 'chunk', 'body': hx(body), 'n': n})
+        n = 16 ** (w - 2)
+        body = b'x' * n
+        got = impl_dechunk(L, L.rd.mk_chunks(body, n))
+        if got != f'ok {hx(body)} 0':
+            ctx.fail('chunk-roundtrip:rejected', f'_read_until window {w}: a chunk of {n} bytes is not read back: {_clip(got, 60)}',
+                     {'kind': 'chunk', 'body': None, 'body_len': n, 'n': n, 'fill': 'x'})
 
 
 def replay(ctx, obj):
